@@ -372,13 +372,20 @@ func init() {
 		if v[s.idx("parorder")] != 0 && v[s.idx("rport")] == 0 && v[s.idx("received")] == 0 {
 			return false
 		}
-		if v[s.idx("entries")] != 0 && (s.Val(v, "path") == "backend" || s.Val(v, "arrival") == "tcp-dialled-backend" || v[s.idx("burst")] != 0) {
-			return false
-		}
-		if v[s.idx("manypars")] != 0 && (v[s.idx("burst")] != 0 || v[s.idx("entries")] != 0) {
+		if v[s.idx("entries")] != 0 && (s.Val(v, "path") == "backend" || s.Val(v, "arrival") == "tcp-dialled-backend") {
 			return false
 		}
 		return true
+	}
+	c07Spec.Reduce = func(v []int) bool {
+		s := c07Spec
+		if v[s.idx("entries")] != 0 && v[s.idx("burst")] != 0 {
+			return true
+		}
+		if v[s.idx("manypars")] != 0 && (v[s.idx("burst")] != 0 || v[s.idx("entries")] != 0) {
+			return true
+		}
+		return false
 	}
 	addCheck(&Check{ID: "C07", Level: "exploration",
 		Rule:   "complete product through the REAL main() with a YAML file (thorough: also through startProxy): no-received {absent,false,true} x arrival {UDP, accepted TCP connection, TCP connection the proxy dialled to a backend} x true source {plain, other address and high port, equal to the Via sent-by, source port 65535} x rport {absent, valueless, spoofed} x received {absent, spoofed} x Via layout x relaying path x {alone, immediately followed by a datagram from another source, another TCP connection accepted before the request is sent} x order of the sender's Via parameters (rport / received before or after branch) x {one listens entry, a second entry with the OPPOSITE received setting through which the next hop was learned} x {few Via parameters, 20 parameters ahead of rport / received}; after the request, the next hop answers and the response is followed to the true source; non-trivial = request relayed",
